@@ -221,6 +221,9 @@ enum Sect {
     Bins,
     Chains,
     Long,
+    /// exactly linear (and exactly constant) windows off the dyadic grid, windows of 20..64:
+    /// an internal assertion about a ratio that is 1 in exact arithmetic is tightest there
+    Lines,
 }
 fn sections(cfg: &Cfg) -> Vec<(Sect, u64)> {
     let nn = ns(cfg).len() as u64;
@@ -233,6 +236,7 @@ fn sections(cfg: &Cfg) -> Vec<(Sect, u64)> {
         (Sect::Bins, if q { 400 } else { 20_000 }),
         (Sect::Chains, if q { 4_000 } else { 300_000 }),
         (Sect::Long, nn * var),
+        (Sect::Lines, all_unary(3).len() as u64 * if q { 40 } else { 400 }),
     ]
 }
 
@@ -268,6 +272,23 @@ fn dispatch<T: Scalar>(cfg: &Cfg, sect: Sect, j: u64, rng: &mut Rng, out: &mut T
             if out.trial % 997 == 0 {
                 out.sample(format!("{} at {} on {:?}, {} values, last() interleaved at random", spec.show(), T::NAME, class, xs.len()));
             }
+            run_single::<T>(&spec, &xs, rng, out, &format!("view/{}", k.name()));
+        }
+        Sect::Lines => {
+            let u = all_unary(3).len() as u64;
+            let n = rng.usize(20, 64);
+            let k = catalogue::bump_n(all_unary(n)[(j % u) as usize], n);
+            let start = *rng.pick(&[100.0, 1000.0, 0.7, 12345.6]);
+            let step = *rng.pick(&[1.0 / 3.0, -1.0 / 3.0, 0.1, -0.7, 1e-3, 0.0, 2.3]);
+            let len = 2 * n + rng.usize(0, 40);
+            let lead = rng.usize(0, 3);
+            let mut xs: Vec<f64> = (0..lead).map(|i| start * 0.5 + i as f64).collect();
+            xs.extend((0..len).map(|i| start + step * i as f64));
+            if catalogue::needs_positive(&k) {
+                xs = xs.iter().map(|x| x.abs() + 0.015625).collect();
+            }
+            let spec = Spec::leaf(k);
+            out.count("off_grid_line_trials", 1);
             run_single::<T>(&spec, &xs, rng, out, &format!("view/{}", k.name()));
         }
         Sect::Ma => {
@@ -358,7 +379,7 @@ impl Monitor for C15 {
         names
     }
     fn rule(&self) -> String {
-        "trial = (view with one point of its parameter grid, N in 1..64, input class, stream length: shorter than / about / several times the window, or 4N+600) or a two-level chain whose inner outputs are checked to stay finite, in the outer view's domain and of moderate magnitude (0 or within 2^-30..2^20) before the outer view receives them; construction and every update()/last() run under catch_unwind in the dev profile (debug assertions + overflow checks) and in the release profile; last() calls interleaved at random, also before the first update. distinct = distinct (tree, input hash, scalar); non-trivial = at least one call executed under the trap".into()
+        "trial = (view with one point of its parameter grid, N in 1..64, input class, stream length: shorter than / about / several times the window, or 4N+600; exactly linear off-grid streams at windows 20..64) or a two-level chain whose inner outputs are checked to stay finite, in the outer view's domain and of moderate magnitude (0 or within 2^-30..2^20) before the outer view receives them; construction and every update()/last() run under catch_unwind in the dev profile (debug assertions + overflow checks) and in the release profile; last() calls interleaved at random, also before the first update. distinct = distinct (tree, input hash, scalar); non-trivial = at least one call executed under the trap".into()
     }
     fn assumptions(&self) -> Vec<String> {
         vec![
